@@ -147,6 +147,26 @@ def sqltext(expr, func, ctx, depth=0):
                 return _hole(expr.id)
             f = f.parent
         return _hole(expr.id)
+    if isinstance(expr, ast.Attribute) and isinstance(expr.value, ast.Name) and expr.value.id in ("self", "cls"):
+        # a class-level constant (self._SQL): the class body assignment, searched along the MRO; not if assigned elsewhere
+        c = func.cls
+        f_ = func
+        while c is None and f_ is not None:
+            f_ = f_.parent
+            c = f_.cls if f_ is not None else None
+        if c is not None:
+            for k in proj.mro(c):
+                vals = [n.value for n in k.node.body if isinstance(n, ast.Assign) and any(is_name(t, expr.attr) for t in n.targets)]
+                if vals:
+                    rebound = any(isinstance(n, (ast.Assign, ast.AugAssign)) and any(
+                        isinstance(t, ast.Attribute) and t.attr == expr.attr for t in (n.targets if isinstance(n, ast.Assign) else [n.target]))
+                        for m_ in proj.modules.values() for n in ast.walk(m_.tree))
+                    if len(vals) == 1 and not rebound:
+                        v2 = folder.try_fold(vals[0], k.module.name, default=None)
+                        if isinstance(v2, str):
+                            return SqlText(v2)
+                    break
+        return _hole(norm(expr))
     if isinstance(expr, ast.BinOp) and isinstance(expr.op, ast.Add):
         return sqltext(expr.left, func, ctx, depth + 1) + sqltext(expr.right, func, ctx, depth + 1)
     if isinstance(expr, ast.BinOp) and isinstance(expr.op, ast.Mod):
